@@ -117,6 +117,20 @@ def tables(repo):
         anc.append((cname, chain))
     t["gateAncestors"] = anc
     _c04_tables(repo, t)
+    # C18: the formats offered by to_bqm (`BQMFormat = Literal[...]` in bqm.py)
+    bqm = _parse(repo, "qlasskit/bqm.py")
+    fm = None
+    for node in ast.walk(bqm):
+        if (isinstance(node, ast.Assign) and len(node.targets) == 1 and isinstance(node.targets[0], ast.Name)
+                and node.targets[0].id == "BQMFormat" and isinstance(node.value, ast.Subscript)):
+            sl = node.value.slice
+            elts = sl.elts if isinstance(sl, ast.Tuple) else [sl]
+            fm = [e.value for e in elts if isinstance(e, ast.Constant) and isinstance(e.value, str)]
+    if fm is None:
+        raise KeyError("bqm.py: BQMFormat")
+    t.setdefault("_extra", []).append(
+        "/-- `BQMFormat = Literal[...]` of bqm.py, in source order -/\ndef bqmFormats : List String := "
+        + lean_list(lean_str(x) for x in fm))
     return t
 
 
